@@ -243,6 +243,34 @@ EpochGuardOverlap(bool nested)
   return failures ? 1 : 0;
 }
 
+// C16: a guard variable that holds a grant of manager A is re-used for a grant of manager B (or receives a guard handed
+// over by another thread): the overwritten grant of A ends, so after all guards are gone A publishes {current, current-1}
+static int
+EpochGuardForeignAssign()
+{
+  EpochManager a{}, b{};
+  std::vector<size_t> lst;
+  size_t min = 0, cur = 0;
+  std::thread w([&] {
+    {
+      auto g = a.CreateEpochGuard();
+      g = b.CreateEpochGuard();  // the grant of a ends here; g now owns a grant of b
+    }
+    for (int i = 0; i < 3; ++i) a.ForwardGlobalEpoch();
+    min = a.GetMinEpoch();
+    cur = a.GetCurrentEpoch();
+    auto &&[guard, list] = a.GetProtectedEpochs();
+    lst = list;
+  });
+  w.join();
+  std::printf("manager a: current %zu, GetMinEpoch %zu, published list:", cur, min);
+  for (size_t e : lst) std::printf(" %zu", e);
+  std::printf("\n");
+  if (lst.size() != 2 || lst[0] != cur || lst[1] != cur - 1) FAIL("after all guards are gone the published list is not exactly {current, current-1}: an overwritten guard still pins epoch %zu", lst.empty() ? 0 : lst.back());
+  if (min != cur - 1) FAIL("after all guards are gone GetMinEpoch() = %zu, expected %zu", min, cur - 1);
+  return failures ? 1 : 0;
+}
+
 int
 main(int argc, char **argv)
 {
@@ -252,6 +280,7 @@ main(int argc, char **argv)
   if (sc == "id-exit-order") rc = IdExitOrder();
   if (sc == "enter-epoch-stall") rc = EnterEpochStall();
   if (sc == "lookup-stall") rc = LookupStall();
+  if (sc == "epoch-guard-foreign-assign") rc = EpochGuardForeignAssign();
   if (sc == "epoch-guard-reassign") rc = EpochGuardOverlap(false);
   if (sc == "epoch-nested-guard") rc = EpochGuardOverlap(true);
   if (sc == "mcs-lost-link") rc = McsLostLink();
